@@ -28,6 +28,7 @@ func vInjVal(name string) string {
 		c := v[i]
 		vAssume(vAnd(vAnd(c != '"', c != '`'), vAnd(c != '\n', c != '\r')))
 		vAssume(c < 0x80)
+		vAssume(c != 0) // go/scanner rejects NUL
 	}
 	return v
 }
@@ -47,6 +48,7 @@ type vEntry struct {
 	name    string
 	content string
 	want    string // expected content after the run (class 4)
+	val     string // injected value (class 4)
 }
 
 // vMkEntry creates directory entry i of the given class under dir d/.
@@ -106,6 +108,21 @@ func vMkEntry(i, class int) vEntry {
 		vFSPut(e.name, src)
 		vParseResult(e.name, f, nil)
 		return e
+	case 12: // a dot-file (sorts before every other entry); not a Go file
+		e.class = 1
+		e.name, e.content = "d/."+base[2:]+"keep", "keep\n"
+		vFSPut(e.name, e.content)
+		return e
+	case 13: // a field whose trailing comment group holds two @tag comments, next to an ordinary annotated field
+		src, f := vBuildSource("", []vStructSrc{{name: "A", fields: []vField{
+			{name: "W", typ: "int", hasTag: true, tag: "json:\"w\"", comment: "/* @tag a:\"1\" */", comment2: "/* @tag b:\"2\" */"},
+			{name: "X", typ: "string", hasTag: true, tag: "json:\"x\"", comment: "// @tag valid:\"required\""},
+		}}}, "")
+		e.class = 5
+		e.name, e.content = base+"twotags.go", src
+		vFSPut(e.name, src)
+		vParseResult(e.name, f, nil)
+		return e
 	case 3: // valid, no annotations
 		src, f := vBuildSource("", []vStructSrc{{name: "A", fields: []vField{{name: "X", typ: "string", hasTag: true, tag: "json:\"x\"", comment: "// plain"}, {name: "Y", typ: "int"}}}}, "")
 		e.name, e.content = base+"plain.go", src
@@ -116,6 +133,7 @@ func vMkEntry(i, class int) vEntry {
 		val := vInjVal("val" + base[2:])
 		src, f := vAnnotatedSrc(val, false)
 		e.name, e.content = base+"ann.pb.go", src
+		e.val = val
 		e.want, _ = vAnnotatedSrc(val, true)
 		vFSPut(e.name, src)
 		vParseResult(e.name, f, nil)
@@ -187,7 +205,7 @@ func vCheckEntry(tag string, e vEntry) {
 	}
 }
 
-const vNClasses = 12
+const vNClasses = 14
 
 func H_C19_file() {
 	vSym = true
